@@ -19,6 +19,7 @@ pub fn gen(seed: u64, tier: Tier) -> ScenarioSpec {
     let len = gen::approx_len(&rec);
     let mut spec = gen::base_spec(P, "S5", seed, rec);
     spec.stream = gen::gen_stream(&mut rng, len, true);
+    gen::gen_embedding(&mut rng, &mut spec.stream);
     spec.stream2 = gen::gen_stream(&mut rng, len, false);
     spec.sink = gen::gen_sink(&mut rng, false);
     spec.opts = OptsSpec { skip_frames: true, compute_hash: rng.chance(1, 2) };
@@ -70,6 +71,9 @@ pub fn run(spec: &ScenarioSpec, ctx: &mut Ctx) -> Result<(), Violation> {
     shape_of_model(ctx, &m, spec);
     ctx.shape("hash", spec.opts.compute_hash as u64);
     ctx.shape("comp", spec.compression as u64);
+    ctx.probe_if(spec.stream.prefix > 0, "replay does not start at stream offset 0");
+    ctx.probe_if(spec.stream.suffix > 0, "unrelated bytes follow the replay");
+    ctx.shape("embed", (spec.stream.prefix > 0) as u64 | ((spec.stream.suffix > 0) as u64) << 1);
     ctx.probe(if spec.opts.compute_hash { "skip with hashing (copy path)" } else { "skip without hashing (seek path)" });
     let edges = m.edges();
     // full read, plain stream
